@@ -81,6 +81,17 @@ def run_ensemble(rng, obs):
         s.SetNestedSolver(ncls)
     s.SetStrictRanges(list(box['lo']), list(box['hi']))
     s.SetEvaluationLimits(maxiter, maxfun)
+    chosen = []
+    if which == 'buckshot':
+        if rng.random() < 0.4:       # starting points sampled from a user-supplied distribution reaching beyond the ranges
+            s.SetDistribution(make_dist(rng, min(box['lo']), max(box['hi'])))
+            obs.desc['dist'] = True; obs.event('sampled_from_a_distribution')
+        real_ip = s._InitialPoints
+        def _InitialPoints():
+            pts = real_ip()
+            chosen.append([[float(v) for v in p] for p in pts])
+            return pts
+        s._InitialPoints = _InitialPoints
     if cons: s.SetConstraints(K.make_constraint(cons))
     if pen: s.SetPenalty(K.make_penalty(pen))
     from mystic.monitors import Monitor
@@ -133,6 +144,10 @@ def run_ensemble(rng, obs):
            members=list(map(int, allN)))
     ck(len(calls) >= len(allE), 'every member starts inside the strict ranges', real_cost_calls=len(calls), members=len(allE), best=be,
        note='the cost is finite everywhere: a member that starts inside the ranges evaluates at least its starting point')
+    if chosen:
+        out = [p for p in chosen[0] if not K.in_box(p, box)]
+        ck(len(chosen[0]) == nmem and not out, 'every member starts inside the strict ranges', starts=out[:3] or chosen[0][:2], n=len(chosen[0]), box=[box['lo'], box['hi']],
+           note='the starting points the ensemble sampled for its members', dist=bool(obs.desc.get('dist')))
     ck(not bad_box, 'every cost call of every member lies inside the strict ranges', first=bad_box[:1])
     ck(not bad_cons, 'every cost call of every member satisfies the constraints', first=bad_cons[:1], cons=cons)
     if not reused:
@@ -215,6 +230,16 @@ def run_wrappers(rng, obs):
     obs.notes = {'cost_calls': probe.n, 'fopt': fopt}
 
 
+def make_dist(rng, lo, hi):
+    """a mystic Distribution with a good part of its mass outside [lo, hi]"""
+    from mystic.math import Distribution
+    mid, w = 0.5 * (lo + hi), max(hi - lo, 0.5)
+    kind = rng.choice(['normal', 'normal', 'uniform', 'laplace'])
+    if kind == 'normal': return Distribution('numpy.random.normal', mid + rng.choice([0.0, 0.4 * w]), w * rng.choice([0.5, 1.0, 2.0]))
+    if kind == 'laplace': return Distribution('numpy.random.laplace', mid, w * rng.choice([0.5, 1.0]))
+    return Distribution('numpy.random.uniform', lo - w * rng.choice([0.5, 2.0]), hi + w * rng.choice([0.0, 1.0]))
+
+
 def run_generators(rng, obs):
     from mystic.math.grid import gridpts, samplepts, fillpts, randomly_bin
     from mystic.math.samples import random_samples
@@ -232,14 +257,30 @@ def run_generators(rng, obs):
     elif which in ('samplepts', 'random_samples'):
         d = rng.randint(1, 5); n = rng.randint(1, 12)
         lb = [round(rng.uniform(-5, 5), 2) for _ in range(d)]; ub = [l + rng.choice([0.0, 0.5, 4.0]) for l in lb]
+        # the dist option: draws come from a user-supplied distribution (one for all axes, or one per axis) whose mass reaches beyond the ranges;
+        # out-of-range draws are redrawn (or, with clip=True, clipped) - either way every returned coordinate is inside [lb, ub]
+        dk = rng.choice(['none', 'none', 'one', 'per_axis'])
+        clip = None
+        dist = None
+        if dk != 'none':
+            ub = [l + rng.choice([0.5, 4.0]) for l in lb]
+            dist = [make_dist(rng, l, u) for l, u in zip(lb, ub)]
+            if dk == 'one': dist = make_dist(rng, min(lb), max(ub))
         if which == 'samplepts':
-            pts = samplepts(list(lb), list(ub), n)
+            pts = samplepts(list(lb), list(ub), n) if dist is None else samplepts(list(lb), list(ub), n, dist)
             ck(len(pts) == n and all(len(p) == d for p in pts), 'samplepts returns npts points of the right dimension', shape=[len(pts), d])
         else:
-            arr = random_samples(list(lb), list(ub), n)
+            kw = {}
+            if dist is not None:
+                clip = rng.choice([None, False, True])
+                kw = {'dist': dist}
+                if clip is not None: kw['clip'] = clip
+            arr = random_samples(list(lb), list(ub), n, **kw)
             ck(arr.shape == (d, n), 'random_samples returns a (dim, npts) array', shape=list(arr.shape))
             pts = arr.T.tolist()
-        ck(all(l <= v <= u for p in pts for v, l, u in zip(p, lb, ub)), 'sampled points stay within their ranges', lb=lb, ub=ub, pts=pts[:3])
+        obs.desc.update({'dist': dk, 'clip': clip})
+        if dist is not None: obs.event('sampled_from_a_distribution')
+        ck(all(l <= v <= u for p in pts for v, l, u in zip(p, lb, ub)), 'sampled points stay within their ranges', lb=lb, ub=ub, pts=pts[:3], dist=dk, clip=clip)
         obs.desc.update({'lb': lb, 'ub': ub, 'npts': n})
         obs.nontrivial = n >= 4
     elif which == 'randomly_bin':
